@@ -209,16 +209,15 @@ avx_reduce_accumulator (OrcCompiler *compiler, int i, OrcVariable *var)
   }
 
   if (var->size == 2) {
-    orc_avx_sse_emit_pextrw_memoffset (compiler, 0,
-        (int)ORC_STRUCT_OFFSET (OrcExecutor,
-            accumulators[i - ORC_VAR_A1]),
-        src, compiler->exec_reg);
-  } else {
-    orc_x86_emit_mov_avx_memoffset (compiler, 4, src,
-        (int)ORC_STRUCT_OFFSET (OrcExecutor,
-            accumulators[i - ORC_VAR_A1]),
-        compiler->exec_reg, var->is_aligned, var->is_uncached);
+    /* the executor slot is an int: write all of it, as the SSE backend and
+     * the emulator do, not just its low half */
+    orc_avx_sse_emit_pslld_imm (compiler, 16, src, src);
+    orc_avx_sse_emit_psrld_imm (compiler, 16, src, src);
   }
+  orc_x86_emit_mov_avx_memoffset (compiler, 4, src,
+      (int)ORC_STRUCT_OFFSET (OrcExecutor,
+          accumulators[i - ORC_VAR_A1]),
+      compiler->exec_reg, var->is_aligned, var->is_uncached);
 }
 
 void
